@@ -11,9 +11,14 @@ package limiter
 //@ props C13
 
 // ---- internal/memory as the limiter uses it (ASSUMED client-side contract) --------------------------------
-// The functions are verified in /repo/internal/memory/zz_contracts_verif.go for the key set, the lock discipline
-// and safety; the value/TTL part cannot be stated there (struct-valued map) and is assumed here:
-// a linearizable map with TTL. memHas[store][key]: a value was Set under key and no Get(key) has observed it
+// The functions are verified in /repo/internal/memory/zz_contracts_verif.go against the real map (key set, stored
+// value, stored expiry, the expiry rule of Get, gc removing only expired entries, lock discipline, safety). The
+// engine loads only a package's own contract files, so the store is restated here over ghost maps; the clauses
+// `client-model-*` of internal/memory prove that the real functions simulate THIS model (memHas/memVal; relation
+// "a present, unexpired, non-nil entry is flagged with its value") for a clock that does not run backwards -
+// which clause is covered by which is listed in the table at the end of internal/memory/zz_contracts_verif.go.
+// memKey/memCurr/memPrev/memExp are bookkeeping of this package about the ARGUMENT of Set (nothing of the store).
+// A linearizable map with TTL. memHas[store][key]: a value was Set under key and no Get(key) has observed it
 // expired since (expiry is observed at Get, and only for the key that is read). memVal: the stored interface value (a *item).
 // memKey[store][p]: the key under which pointer p was stored last. memCurr/memPrev/memExp: the fields of the
 // stored item AT THE TIME OF Set (a ghost snapshot: the store keeps the pointer, and the handler updates the item
